@@ -69,6 +69,16 @@ type Scenario struct {
 	// Modes (optional, parallel to Dirs) says how the harness-side consumer /
 	// resolver handler of a request behaves (Mode* constants; default ModeRecord).
 	Modes [2][]int `json:"modes,omitempty"`
+	// Script (optional; implies Dynamic) is a history of registrations, RELEASES,
+	// control-stream stalls and quiescence points executed after the links are up
+	// (see Step). Order lists its "add" steps; Stages is not used.
+	Script []Step `json:"script,omitempty"`
+	// StreamFault (CloseErr* / CloseSlow* constants of FakeStream) is the Close
+	// behaviour of both ends of every SOLICITED stream of the scenario.
+	StreamFault int `json:"solicited_stream_close_fault,omitempty"`
+	// Deriv documents how the (id, context) pairs of the scenario are derived
+	// from each other (derivation families; witnesses and classification only).
+	Deriv []DerivNote `json:"derivations,omitempty"`
 }
 
 // Behaviour of the harness side of one request.
@@ -101,9 +111,15 @@ const (
 	// ModeFakeCap1: harness ResolverHandler that takes the first value and
 	// rejects all later ones (hard cap of one value).
 	ModeFakeCap1 = 7
+	// ModeDirect: registered with the controller directly like the ModeFake*
+	// requests, with a harness ResolverHandler that takes every value. The
+	// harness owns the resolver's context, so a RELEASE of such a request is
+	// complete (the controller has forgotten the solicitation) when Resolve has
+	// returned: a time-free condition.
+	ModeDirect = 8
 )
 
-var modeNames = [...]string{"record", "accept-now", "accept+close-siblings", "accept+release-siblings", "gone-at-stream", "gone-at-stream-async", "fake-reject", "fake-cap1"}
+var modeNames = [...]string{"record", "accept-now", "accept+close-siblings", "accept+release-siblings", "gone-at-stream", "gone-at-stream-async", "fake-reject", "fake-cap1", "direct"}
 
 // Mode returns the behaviour of request di of node n.
 func (s *Scenario) Mode(n, di int) int {
@@ -113,10 +129,23 @@ func (s *Scenario) Mode(n, di int) int {
 	return ModeRecord
 }
 
-func isFakeMode(m int) bool { return m == ModeFakeReject || m == ModeFakeCap1 }
+func isFakeMode(m int) bool { return m == ModeFakeReject || m == ModeFakeCap1 || m == ModeDirect }
 
 // stageList returns the registration stages of a dynamic scenario.
 func (s *Scenario) stageList() [][][2]int {
+	if len(s.Script) > 0 {
+		var out [][][2]int
+		for _, seg := range s.segments() {
+			var l [][2]int
+			for _, st := range seg {
+				if st.Op == OpAdd {
+					l = append(l, [2]int{st.Node, st.Dir})
+				}
+			}
+			out = append(out, l)
+		}
+		return out
+	}
 	if len(s.Stages) > 0 {
 		return s.Stages
 	}
@@ -132,6 +161,17 @@ func (s *Scenario) Sig() string {
 		if len(s.Stages) > 0 {
 			fmt.Fprintf(&b, " stages%v", s.Stages)
 		}
+		if len(s.Script) > 0 {
+			b.WriteString(" script[")
+			for _, st := range s.Script {
+				b.WriteString(st.String())
+				b.WriteByte(' ')
+			}
+			b.WriteString("]")
+		}
+	}
+	if s.StreamFault != 0 {
+		b.WriteString(" streams:" + CloseFaultNames[s.StreamFault])
 	}
 	for n := 0; n < 2; n++ {
 		fmt.Fprintf(&b, " N%d:", n)
@@ -189,6 +229,9 @@ func (s *Scenario) MustHave(n, di, li int) bool {
 	if !s.Dynamic {
 		return true
 	}
+	if len(s.Script) > 0 {
+		return s.scriptMustHave(n, di, li)
+	}
 	d := s.Dirs[n][di]
 	for _, w := range s.Order {
 		if w[0] != n {
@@ -243,11 +286,20 @@ type Node struct {
 	dirRefs []directive.Reference
 	// goneOnce: ModeGoneAtStream* requests are closed once
 	goneOnce sync.Once
+	// direct requests (ModeFake* / ModeDirect): the harness owns the resolver
+	// contexts; fakeWG[di] is done when every Resolve call of the request returned
+	fakeCancel map[int]context.CancelFunc
+	fakeWG     map[int]*sync.WaitGroup
+	// stallCtl: writes of this node on control streams are stalled
+	stallCtl atomic.Bool
 
 	// Rejected counts AddValue calls answered ok=false by harness resolver
 	// handlers; SiblingCloses the bus instances closed by accepting handlers;
 	// GoneCloses those closed at stream arrival.
 	Rejected, SiblingCloses, GoneCloses atomic.Int64
+	// Releases counts executed OpRelease steps, StalledSends the OpAwaitStalled
+	// steps that saw the node's control loop parked in a stalled write.
+	Releases, StalledSends atomic.Int64
 }
 
 // MergedWith reports the earlier request onto whose bus directive request di
@@ -617,8 +669,17 @@ func (t *TwoNode) addDirective(i, di int) string {
 			return fmt.Sprintf("HandleDirective(SolicitProtocol): %v (%d resolvers)", err, len(resolvers))
 		}
 		rh := &fakeRH{t: t, n: n, dir: di, vals: map[uint32]directive.Value{}}
+		rctx, rcancel := context.WithCancel(t.ctx)
+		wg := &sync.WaitGroup{}
+		n.mu.Lock()
+		if n.fakeCancel == nil {
+			n.fakeCancel, n.fakeWG = map[int]context.CancelFunc{}, map[int]*sync.WaitGroup{}
+		}
+		n.fakeCancel[di], n.fakeWG[di] = rcancel, wg
+		n.mu.Unlock()
 		for _, res := range resolvers {
-			go func(res directive.Resolver) { _ = res.Resolve(t.ctx, rh) }(res)
+			wg.Add(1)
+			go func(res directive.Resolver) { defer wg.Done(); _ = res.Resolve(rctx, rh) }(res)
 		}
 		return ""
 	}
@@ -680,20 +741,23 @@ func (t *TwoNode) waitIdle(which [][2]int) bool {
 	})
 }
 
-// AddStage (dynamic scenarios) registers the directives of stage k one at a
-// time in their order, each only after the previous one is registered.
+// AddStage (dynamic scenarios) executes segment k of the scenario's history:
+// the steps up to the next quiescence point (registrations one at a time, each
+// only after the previous one is registered; releases; stalls).
 func (t *TwoNode) AddStage(k int) string {
-	st := t.Scen.stageList()
-	if k >= len(st) {
+	segs := t.Scen.segments()
+	if k >= len(segs) {
 		return ""
 	}
-	for _, w := range st[k] {
-		if e := t.addDirective(w[0], w[1]); e != "" {
+	for _, st := range segs[k] {
+		if e := t.runStep(st); e != "" {
 			return e
 		}
-		if !t.waitIdle([][2]int{w}) {
-			return "directive did not become idle (watchdog)"
-		}
+	}
+	if k == len(segs)-1 && len(t.Scen.Script) > 0 {
+		// the history ends with all back-pressure lifted
+		t.setStall(0, false)
+		t.setStall(1, false)
 	}
 	return ""
 }
@@ -729,10 +793,23 @@ func (t *TwoNode) openStream(from, li int) func(ctx context.Context, l *FakeMoun
 		a, b := NewFakeStreamPair(id)
 		rl := t.Nodes[to].Links[li]
 		rec := &StreamRec{ID: id, Link: li, Opener: from, Proto: pid, Ends: [2]*FakeStream{a, b}}
+		if pid != link_solicit_controller.ControlProtocolID && t.Scen.StreamFault != 0 {
+			a.Fault, b.Fault = t.Scen.StreamFault, t.Scen.StreamFault
+		}
 		rec.MS[0] = &FakeMountedStream{Strm: a, Proto: pid, Lnk: l, Peer: l.Remote}
 		rec.MS[1] = &FakeMountedStream{Strm: b, Proto: pid, Lnk: rl, Peer: rl.Remote}
 		t.mu.Lock()
 		t.streams = append(t.streams, rec)
+		if pid == link_solicit_controller.ControlProtocolID {
+			// back-pressure on the control stream (flag and stream list are both
+			// guarded by t.mu, see setStall): end 0 is written by the opener
+			if t.Nodes[from].stallCtl.Load() {
+				a.StallWrites(true)
+			}
+			if t.Nodes[to].stallCtl.Load() {
+				b.StallWrites(true)
+			}
+		}
 		t.mu.Unlock()
 		t.nstreams.Add(1)
 		t.disp.Add(1)
